@@ -810,11 +810,11 @@ class EventProperty(OntologyElement):
                 property_element.get('similar', ''),
                 property_element.attrib['confidence']
             )
-        except KeyError as e:
+        except (KeyError, ValueError) as e:
             raise EDXMLOntologyValidationError(
                 "Failed to instantiate an event property from the following definition:\n" +
                 etree.tostring(property_element, pretty_print=True, encoding='unicode') +
-                "\nMissing attribute: " + str(e)
+                "\nMissing attribute or illegal value: " + str(e)
             )
 
         concept_names = []
